@@ -13,6 +13,9 @@
 //   * env/remove_segment_shim.vs: the Display spec of Segment, `ids_gain` (contract of add_dummy_tour), `svc_mask`,
 //     `svc_filter`, `has_service` (contract of Tour::new_dummy), `ids_valid`, `Schedule::{ids_ok, next_dummy_id}`;
 //     `Schedule::or_transitions_ok` is `transitions_ok` of that file with room for two listed vehicles.
+//   * env/sched_ctor_shim.vs: the counting lemmas `cyc_elems`, `lemma_cyc_elems_member`, `lemma_cyc_elems_len`,
+//     `lemma_total_len_is_lookup` (here with the prefix `orc_`), for the closure of the magnitude clause of or_transitions_ok.
+// CLOSURE (last section): `orc_*` / `lemma_orc_*` -- on Ok the result satisfies the schedule-invariant part of or_pre again.
 
 // A-display: `{}` of a Segment (hand written Display impl of the repository; a no-op outside verus!)
 impl vstd::std_specs::fmt::DisplaySpecImpl for Segment {
@@ -986,5 +989,312 @@ pub proof fn lemma_or_upd_pre(s: &Schedule, segment: Segment, p: VehicleIdx, rcv
         implies (s.sp_is_vehicle(p) && s.type_of(p) == vt) || (s.sp_is_vehicle(rcv) && s.type_of(rcv) == vt) by {
         let i = choose|i: int| 0 <= i < cv.len() && (#[trigger] cv[i]) is Vehicle && s.eff_type(vehicles1, cv[i]) == vt;
         if i == 0 { assert(s.eff_type(vehicles1, p) == s.type_of(p)); } else { assert(s.eff_type(vehicles1, rcv) == s.type_of(rcv)); }
+    }
+}
+
+// =====================================================================================================
+// CLOSURE (the induction step of C10 / C09): on Ok the result schedule `res` satisfies the schedule-invariant part of
+// `or_pre` again.  Every lemma below is a lemma ABOUT THE CONTRACT: its hypotheses are `or_pre` for the old schedule and the
+// effect clauses (or_provider_after, or_receiver_after, or_maps_after, or_dummy_after, or_costs_after,
+// or_transitions_after, res.network == self.network) read on `res`; nothing else is known about `res`.
+// =====================================================================================================
+impl Schedule {
+    /// `res` is the schedule Schedule::new builds from these components (the ones the closure clauses read)
+    pub open spec fn orc_built(res: &Schedule, net: Arc<Network>, vehicles1: VehicleMap, tours1: TourMap, dummies1: TourMap, counter1: usize,
+            trs1: Map<VehicleTypeIdx, Transition>, mv1: MaintenanceCounter, costs1: Cost) -> bool {
+        &&& res.network == net && res.vehicles@ == vehicles1 && res.tours@ == tours1 && res.dummy_tours@ == dummies1
+        &&& res.vehicle_counter == counter1 && res.next_period_transitions@ == trs1 && res.maintenance_violation == mv1 && res.costs == costs1
+    }
+    /// closure of `part_ok` (C10 / C01 / C09 per vehicle): EVERY vehicle or dummy v that satisfied part_ok in the old schedule
+    /// and still has a tour in the new one satisfies part_ok in the new one -- the provider (if it still exists), the
+    /// receiver, and every vehicle the modification does not touch.  Magnitude (A-len): the receiver's new tour may be longer
+    /// than both old tours; `tour_len_ok` of it is the (weakest) extra hypothesis for v == receiver.
+    pub open spec fn orc_parts_after(&self, segment: Segment, p: VehicleIdx, rcv: VehicleIdx, res: &Schedule) -> bool {
+        forall|v: VehicleIdx| #![trigger res.part_ok(v)]
+            self.part_ok(v) && res.has_tour(v) && (v == rcv ==> tour_len_ok(self.or_gained(segment, p, rcv))) ==> res.part_ok(v)
+    }
+    /// the new dummy tour (if one is created) satisfies part_ok as soon as it is well-formed (its connectivity is A-path / D9,
+    /// see slices/remove_segment.vs: Tour::new_dummy's contract does not state `wf`)
+    pub open spec fn orc_new_dummy_part(&self, segment: Segment, p: VehicleIdx, rcv: VehicleIdx, res: &Schedule) -> bool {
+        self.or_creates_dummy(segment, p, rcv) && res.dummy_tours@[self.next_dummy_id()].wf() ==> res.part_ok(self.next_dummy_id())
+    }
+    /// the costs clause of `or_pre`, verbatim: "the schedule's costs cover the tours of the (real) participants"
+    pub open spec fn orc_costs_cover(&self, p: VehicleIdx, rcv: VehicleIdx) -> bool {
+        self.cost_out_provider(self.tours@, Some(p)) + self.cost_out_receiver(self.tours@, rcv) <= self.costs
+    }
+}
+/// what is kept of a list is not longer than the list
+pub proof fn lemma_orc_mask_filter_len<T>(s: Seq<T>, mask: Seq<bool>)
+    ensures mask_filter(s, mask).len() <= s.len(),
+    decreases s.len(),
+{
+    if s.len() > 0 && mask.len() == s.len() { lemma_orc_mask_filter_len(s.drop_last(), mask.drop_last()); }
+}
+/// closure of part_ok
+pub proof fn lemma_orc_parts(s: &Schedule, segment: Segment, p: VehicleIdx, rcv: VehicleIdx, res: &Schedule, nd: Option<VehicleIdx>)
+    requires
+        s.or_pre(segment, p, rcv), s.or_removes(segment, p),
+        res.network == s.network,
+        s.or_provider_after(segment, p, rcv, res.vehicles@, res.tours@, res.dummy_tours@),
+        s.or_receiver_after(segment, p, rcv, res.tours@, res.dummy_tours@),
+        s.or_maps_after(segment, p, rcv, res.tours@, res.dummy_tours@),
+        s.or_dummy_after(segment, p, rcv, res.dummy_tours@, res.vehicle_counter, nd),
+        forall|vt: VehicleTypeIdx| s.next_period_transitions@.contains_key(vt) <==> #[trigger] res.next_period_transitions@.contains_key(vt),
+        0 <= s.or_s(segment, p, rcv) <= s.or_e(segment, p, rcv) <= s.sp_tour_of(rcv).len(),
+    ensures
+        s.orc_parts_after(segment, p, rcv, res),
+        s.orc_new_dummy_part(segment, p, rcv, res),
+{
+    lemma_or_setup(s, segment, p, rcv);
+    lemma_or_cut(s, segment, p, rcv);
+    let id = s.next_dummy_id();
+    let tp = s.sp_tour_of(p);
+    let tr = s.sp_tour_of(rcv);
+    let stp = tour_opt_in(res.tours@, res.dummy_tours@, p);
+    let ntr = tour_in(res.tours@, res.dummy_tours@, rcv);
+    let d1 = s.dummies_after(s.dummy_tours@, Some(p), stp, rcv, ntr);
+    let creates = s.or_creates_dummy(segment, p, rcv);
+    lemma_cuts(&tp, s.or_lo(segment, p), s.or_hi(segment, p) + 1);
+    assert(tour_len_ok(s.or_kept(segment, p)));
+    if creates {
+        if s.vehicles@.contains_key(id) { assert(id is Vehicle); }
+        assert(!s.vehicles@.contains_key(id) && !s.tours@.contains_key(id) && !s.dummy_tours@.contains_key(id));
+    }
+    assert forall|v: VehicleIdx| #![trigger res.part_ok(v)]
+        s.part_ok(v) && res.has_tour(v) && (v == rcv ==> tour_len_ok(s.or_gained(segment, p, rcv))) implies res.part_ok(v) by {
+        assert(s.vehicles@.contains_key(v) <==> s.tours@.contains_key(v));
+        assert(s.has_tour(v));
+        if creates { assert(v != id); }
+        if v == rcv {
+            assert(res.sp_tour_of(rcv) == ntr);
+            assert(res.vehicles@.contains_key(rcv) == s.vehicles@.contains_key(rcv));
+            assert(res.dummy_tours@.contains_key(rcv) == s.dummy_tours@.contains_key(rcv));
+            if res.sp_is_vehicle(rcv) { assert(res.type_of(rcv) == s.type_of(rcv)); }
+        } else if v == p {
+            assert(stp is Some);
+            assert(res.sp_tour_of(p) == stp.unwrap());
+            assert(res.vehicles@.contains_key(p) == s.vehicles@.contains_key(p));
+            assert(res.dummy_tours@.contains_key(p) == s.dummy_tours@.contains_key(p));
+            if res.sp_is_vehicle(p) { assert(res.type_of(p) == s.type_of(p)); }
+        } else {
+            lemma_frame(s, s.vehicles@, s.tours@, s.dummy_tours@, Some(p), stp, rcv, ntr, v);
+            assert(res.dummy_tours@.contains_key(v) == s.dummy_tours@.contains_key(v) && res.dummy_tours@[v] == s.dummy_tours@[v]);
+            assert(res.sp_tour_of(v) == s.sp_tour_of(v));
+            if res.sp_is_vehicle(v) { assert(res.type_of(v) == s.type_of(v)); }
+        }
+    }
+    if creates && res.dummy_tours@[id].wf() {
+        let d = s.or_displaced(segment, p, rcv);
+        lemma_cuts(&tr, s.or_s(segment, p, rcv), s.or_e(segment, p, rcv));
+        lemma_orc_mask_filter_len(d, svc_mask(&s.network, d));
+        assert(!res.tours@.contains_key(id));
+        assert(!res.vehicles@.contains_key(id));
+        assert(res.sp_tour_of(id) == res.dummy_tours@[id]);
+        assert(res.part_ok(id));
+    }
+}
+/// closure of the costs clause: the new costs cover the new tours of the (real) participants
+pub proof fn lemma_orc_costs(s: &Schedule, segment: Segment, p: VehicleIdx, rcv: VehicleIdx, res: &Schedule)
+    requires
+        s.or_pre(segment, p, rcv),
+        s.or_provider_after(segment, p, rcv, res.vehicles@, res.tours@, res.dummy_tours@),
+        s.or_receiver_after(segment, p, rcv, res.tours@, res.dummy_tours@),
+        s.or_maps_after(segment, p, rcv, res.tours@, res.dummy_tours@),
+        s.or_costs_after(p, rcv, res.tours@, res.dummy_tours@, res.costs),
+    ensures
+        res.orc_costs_cover(p, rcv),
+{
+    lemma_or_setup(s, segment, p, rcv);
+    let stp = tour_opt_in(res.tours@, res.dummy_tours@, p);
+    let ntr = tour_in(res.tours@, res.dummy_tours@, rcv);
+    assert(res.vehicles@.contains_key(rcv) == s.vehicles@.contains_key(rcv));
+    if res.sp_is_vehicle(rcv) { assert(res.tours@[rcv] == ntr); }
+    if res.sp_is_vehicle(p) {
+        assert(s.sp_is_vehicle(p) && stp is Some);
+        assert(res.tours@[p] == stp.unwrap());
+    }
+    assert(res.cost_out_provider(res.tours@, Some(p)) == s.cost_in_provider(Some(p), stp));
+    assert(res.cost_out_receiver(res.tours@, rcv) == s.cost_in_receiver(rcv, ntr));
+}
+
+// ---- closure of or_transitions_ok; counting (text of env/sched_ctor_shim.vs, which cannot be included here): a consistent
+// transition holds as many vehicles as its lookup has keys, so a transition whose vehicles are among the vehicles of another
+// one is not longer -- the modification creates no real vehicle, hence the magnitude clause `len_sum + 2 <= 2^17` is kept
+/// the vehicles in the first k cycles
+pub open spec fn orc_cyc_elems(t: TView, k: int) -> Set<VehicleIdx>
+    decreases k,
+{
+    if k <= 0 { Set::empty() } else { orc_cyc_elems(t, k - 1).union(t.cyc(k - 1).to_set()) }
+}
+pub proof fn lemma_orc_cyc_elems_member(t: TView, k: int, v: VehicleIdx)
+    requires 0 <= k <= t.n(),
+    ensures orc_cyc_elems(t, k).contains(v) <==> exists|i: int| 0 <= i < k && (#[trigger] t.cyc(i)).contains(v),
+    decreases k,
+{
+    if k > 0 {
+        lemma_orc_cyc_elems_member(t, k - 1, v);
+        if orc_cyc_elems(t, k).contains(v) {
+            if t.cyc(k - 1).contains(v) { assert(0 <= k - 1 < k && t.cyc(k - 1).contains(v)); }
+            else {
+                let i = choose|i: int| 0 <= i < k - 1 && (#[trigger] t.cyc(i)).contains(v);
+                assert(0 <= i < k && t.cyc(i).contains(v));
+            }
+        }
+        if exists|i: int| 0 <= i < k && (#[trigger] t.cyc(i)).contains(v) {
+            let i = choose|i: int| 0 <= i < k && (#[trigger] t.cyc(i)).contains(v);
+            if i < k - 1 { assert(0 <= i < k - 1 && t.cyc(i).contains(v)); }
+        }
+    }
+}
+pub proof fn lemma_orc_cyc_elems_len(t: TView, k: int)
+    requires t.wf_cycles(), 0 <= k <= t.n(),
+    ensures orc_cyc_elems(t, k).len() == sum_seq(lens_of(t.cycles).take(k)),
+    decreases k,
+{
+    let l = lens_of(t.cycles);
+    if k > 0 {
+        lemma_orc_cyc_elems_len(t, k - 1);
+        let a = orc_cyc_elems(t, k - 1);
+        let b = t.cyc(k - 1).to_set();
+        assert(a.disjoint(b)) by {
+            assert forall|v: VehicleIdx| !(a.contains(v) && b.contains(v)) by {
+                if a.contains(v) && b.contains(v) {
+                    lemma_orc_cyc_elems_member(t, k - 1, v);
+                    let i = choose|i: int| 0 <= i < k - 1 && (#[trigger] t.cyc(i)).contains(v);
+                    let x = choose|x: int| 0 <= x < t.cyc(i).len() && t.cyc(i)[x] == v;
+                    let ck = t.cyc(k - 1);
+                    let y = choose|y: int| 0 <= y < ck.len() && ck[y] == v;
+                    assert(t.cyc(i)[x] != t.cyc(k - 1)[y]);
+                }
+            }
+        }
+        vstd::set_lib::lemma_set_disjoint_lens(a, b);
+        t.cyc(k - 1).unique_seq_to_set();
+        assert(l.take(k).drop_last() =~= l.take(k - 1));
+        assert(l.take(k).last() == t.cyc(k - 1).len());
+    } else {
+        assert(l.take(0) =~= Seq::<int>::empty());
+    }
+}
+/// C15: a consistent transition holds as many vehicles as its lookup has keys
+pub proof fn lemma_orc_total_len_is_lookup(t: TView)
+    requires t.wf_cycles(), t.wf_lookup(),
+    ensures t.total_len() == t.lookup.dom().len(),
+{
+    let l = lens_of(t.cycles);
+    lemma_orc_cyc_elems_len(t, t.n());
+    assert(l.take(t.n()) =~= l);
+    assert(orc_cyc_elems(t, t.n()) =~= t.lookup.dom()) by {
+        assert forall|v: VehicleIdx| orc_cyc_elems(t, t.n()).contains(v) <==> #[trigger] t.lookup.dom().contains(v) by {
+            lemma_orc_cyc_elems_member(t, t.n(), v);
+            if orc_cyc_elems(t, t.n()).contains(v) {
+                let i = choose|i: int| 0 <= i < t.n() && (#[trigger] t.cyc(i)).contains(v);
+                let x = choose|x: int| 0 <= x < t.cyc(i).len() && t.cyc(i)[x] == v;
+                assert(t.lookup.contains_key(t.cyc(i)[x]));
+            }
+            if t.lookup.contains_key(v) {
+                assert(0 <= t.cycle_of(v) < t.n() && t.cyc(t.cycle_of(v)).contains(v));
+            }
+        }
+    }
+}
+/// a consistent transition whose vehicles all are vehicles of another consistent transition is not longer
+pub proof fn lemma_orc_total_len_le(t0: TView, t1: TView)
+    requires
+        t0.wf_cycles(), t0.wf_lookup(), t1.wf_cycles(), t1.wf_lookup(),
+        forall|v: VehicleIdx| #[trigger] t1.lookup.contains_key(v) ==> t0.lookup.contains_key(v),
+    ensures t1.total_len() <= t0.total_len(),
+{
+    lemma_orc_total_len_is_lookup(t0);
+    lemma_orc_total_len_is_lookup(t1);
+    assert(t1.lookup.dom().subset_of(t0.lookup.dom())) by {
+        assert forall|v: VehicleIdx| t1.lookup.dom().contains(v) implies t0.lookup.dom().contains(v) by {
+            assert(t1.lookup.contains_key(v));
+        }
+    }
+    vstd::set_lib::lemma_len_subset(t1.lookup.dom(), t0.lookup.dom());
+}
+pub proof fn lemma_orc_len_sum_le(trs0: Map<VehicleTypeIdx, Transition>, trs1: Map<VehicleTypeIdx, Transition>, vts: Seq<VehicleTypeIdx>)
+    requires forall|i: int| 0 <= i < vts.len() ==> trs1[#[trigger] vts[i]].total_len() <= trs0[vts[i]].total_len(),
+    ensures len_sum(trs1, vts) <= len_sum(trs0, vts),
+    decreases vts.len(),
+{
+    if vts.len() > 0 {
+        let w = vts.drop_last();
+        assert forall|i: int| 0 <= i < w.len() implies trs1[#[trigger] w[i]].total_len() <= trs0[w[i]].total_len() by {
+            assert(w[i] == vts[i]);
+        }
+        lemma_orc_len_sum_le(trs0, trs1, w);
+        assert(vts.last() == vts[vts.len() - 1]);
+    }
+}
+/// closure of or_transitions_ok (C15 / C10 / C09 for the rotation cycles, incl. the magnitude clause)
+pub proof fn lemma_orc_transitions(s: &Schedule, segment: Segment, p: VehicleIdx, rcv: VehicleIdx, res: &Schedule)
+    requires
+        s.or_pre(segment, p, rcv),
+        res.network == s.network,
+        s.or_provider_after(segment, p, rcv, res.vehicles@, res.tours@, res.dummy_tours@),
+        s.or_transitions_after(p, rcv, res.next_period_transitions@, res.maintenance_violation, res.vehicles@, res.tours@),
+    ensures
+        res.or_transitions_ok(),
+{
+    let trs0 = s.next_period_transitions@;
+    let trs1 = res.next_period_transitions@;
+    let vts = sched_types(s);
+    assert(sched_types(res) == vts);
+    // no new real vehicle, types kept
+    assert forall|v: VehicleIdx| #[trigger] res.vehicles@.contains_key(v) implies s.vehicles@.contains_key(v) && res.vehicles@[v] == s.vehicles@[v] by {}
+    assert forall|i: int| 0 <= i < vts.len() implies trs1[#[trigger] vts[i]].total_len() <= trs0[vts[i]].total_len() by {
+        let vt = vts[i];
+        assert(vts.contains(vt));
+        assert(trs0.contains_key(vt) && trs1.contains_key(vt));
+        assert(trs0[vt].wf(&s.network, s.tours@) && trs1[vt].wf(&s.network, res.tours@));
+        assert forall|v: VehicleIdx| #[trigger] trs1[vt]@.lookup.contains_key(v) implies trs0[vt]@.lookup.contains_key(v) by {
+            assert(trs1[vt].has_vehicle(v));
+            assert(res.vehicles@.contains_key(v) && vtype(res.vehicles@[v]) == vt);
+            assert(s.vehicles@.contains_key(v) && s.type_of(v) == vt);
+            assert(trs0[vt].has_vehicle(v));
+        }
+        lemma_orc_total_len_le(trs0[vt]@, trs1[vt]@);
+    }
+    lemma_orc_len_sum_le(trs0, trs1, vts);
+    assert forall|vt: VehicleTypeIdx, v: VehicleIdx| #![trigger trs1[vt].has_vehicle(v)] trs1.contains_key(vt)
+        implies (trs1[vt].has_vehicle(v) <==> res.vehicles@.contains_key(v) && res.type_of(v) == vt) by {}
+}
+/// CLOSURE, for the schedule Schedule::new builds from the final components: the facts the callees' contracts provide are
+/// ANTECEDENTS (the effect clauses of the contract, read on the components)
+pub proof fn lemma_orc_closure(s: &Schedule, segment: Segment, p: VehicleIdx, rcv: VehicleIdx, nd: Option<VehicleIdx>,
+        vehicles1: VehicleMap, tours1: TourMap, dummies1: TourMap, counter1: usize, trs1: Map<VehicleTypeIdx, Transition>, mv1: MaintenanceCounter, costs1: Cost)
+    requires s.or_pre(segment, p, rcv), s.or_removes(segment, p),
+    ensures
+        s.or_provider_after(segment, p, rcv, vehicles1, tours1, dummies1)
+            && s.or_receiver_after(segment, p, rcv, tours1, dummies1)
+            && s.or_maps_after(segment, p, rcv, tours1, dummies1)
+            && s.or_dummy_after(segment, p, rcv, dummies1, counter1, nd)
+            && s.or_costs_after(p, rcv, tours1, dummies1, costs1)
+            && s.or_transitions_after(p, rcv, trs1, mv1, vehicles1, tours1)
+            && 0 <= s.or_s(segment, p, rcv) <= s.or_e(segment, p, rcv) <= s.sp_tour_of(rcv).len()
+        ==> forall|res: Schedule| #![trigger s.orc_parts_after(segment, p, rcv, &res)] #![trigger s.orc_new_dummy_part(segment, p, rcv, &res)]
+                #![trigger res.orc_costs_cover(p, rcv)] #![trigger res.or_transitions_ok()]
+                Schedule::orc_built(&res, s.network, vehicles1, tours1, dummies1, counter1, trs1, mv1, costs1)
+                ==> s.orc_parts_after(segment, p, rcv, &res) && s.orc_new_dummy_part(segment, p, rcv, &res)
+                    && res.orc_costs_cover(p, rcv) && res.or_transitions_ok(),
+{
+    if s.or_provider_after(segment, p, rcv, vehicles1, tours1, dummies1)
+        && s.or_receiver_after(segment, p, rcv, tours1, dummies1)
+        && s.or_maps_after(segment, p, rcv, tours1, dummies1)
+        && s.or_dummy_after(segment, p, rcv, dummies1, counter1, nd)
+        && s.or_costs_after(p, rcv, tours1, dummies1, costs1)
+        && s.or_transitions_after(p, rcv, trs1, mv1, vehicles1, tours1)
+        && 0 <= s.or_s(segment, p, rcv) <= s.or_e(segment, p, rcv) <= s.sp_tour_of(rcv).len() {
+        assert forall|res: Schedule| #![trigger s.orc_parts_after(segment, p, rcv, &res)] #![trigger s.orc_new_dummy_part(segment, p, rcv, &res)]
+            #![trigger res.orc_costs_cover(p, rcv)] #![trigger res.or_transitions_ok()]
+            Schedule::orc_built(&res, s.network, vehicles1, tours1, dummies1, counter1, trs1, mv1, costs1)
+            implies s.orc_parts_after(segment, p, rcv, &res) && s.orc_new_dummy_part(segment, p, rcv, &res)
+                && res.orc_costs_cover(p, rcv) && res.or_transitions_ok() by {
+            lemma_orc_parts(s, segment, p, rcv, &res, nd);
+            lemma_orc_costs(s, segment, p, rcv, &res);
+            lemma_orc_transitions(s, segment, p, rcv, &res);
+        }
     }
 }
